@@ -63,6 +63,13 @@ def gen_path(ctx):
         add("encshape g%d.%d" % (n, rng.randrange(256)), "path-encshape")
     for _ in range(300 if not thorough else 3000):
         add("rt " + hx(rand_data(rng)), "path-rt")
+    # the encoder on given cache-breaker bytes (crypto/rand's Reader hands out exactly these): every byte value in every
+    # position class, the characters '-' and '_' in the padding, all-equal bytes
+    cbs = [bytes([v] * 9) for v in (0, 1, 0x3e, 0x3f, 0x7f, 0x80, 0xfb, 0xfe, 0xff)] + [bytes(range(k, k + 9)) for k in range(0, 247, 19)]
+    cbs += [bytes(rng.randrange(256) for _ in range(9)) for _ in range(60 if not thorough else 600)]
+    cbs += [bytes(rng.choice([0xfb, 0xff, 0xef, 0xbe, 0xfa]) for _ in range(9)) for _ in range(20)]
+    for cb in cbs:
+        add("encwith %s %s" % (hx(cb), hx(rand_data(rng))), "path-enc-given-padding")
     # decode of "0" ++ arbitrary padding ++ "/" ++ b64url(data): must give data back
     for _ in range(1500 if not thorough else 15000):
         d = rand_data(rng)
@@ -125,6 +132,11 @@ def prop(line, impl, model):
         f = impl.split(" ")
         if len(f) != 4 or f[0] != "x30" or f[2] != "1" or f[3] != hx(b64u(bytes.fromhex(expand(a[2])))):
             return "EncodePath output is not \"0\" + base64url padding + \"/\" + base64url(data): " + impl[:120]
+    elif op == "encwith":
+        cb, d = unhex(a[2]), bytes.fromhex(expand(a[3]))
+        want = hx(b"0" + b64u(cb) + b"/" + b64u(d)) + " ok " + hx(d)
+        if impl != want:
+            return "EncodePath with cache breaker %s gave %s, not \"0\"+base64url(breaker)+\"/\"+base64url(data) decoding to data" % (cb.hex(), impl[:120])
     elif op == "b64":
         if impl != hx(b64u(bytes.fromhex(expand(a[2])))):
             return "base64.RawURLEncoding differs from RFC 4648 base64url without padding"
@@ -151,7 +163,7 @@ def expand(spec):
 def key_of(line, impl, model):
     a = line.split(" ")
     op = a[1]
-    if op in ("rt", "encshape", "b64"):
+    if op in ("rt", "encshape", "b64", "encwith"):
         return "path-roundtrip"
     if op == "dec":
         return "path-roundtrip" if a[3] != "-" else "path-malformed"
@@ -173,7 +185,27 @@ def run_path(ctx):
         ctx.not_shown("amp-path: encraw phase failed: " + err[-300:])
         return
     l2 = ["%s dec %s %s" % (AREA, r, hx(d)) for r, d in zip(raw, datas)]
-    ctx.correspond(exe, l2, ["path-dec-of-real-encoding"] * len(l2), label="amp-path-real-encoding", prop=prop, key_of=key_of, crosscheck=0)
+    # ... and the real random padding through the encoder model: EncodePath's output must be the model's for the 9 bytes
+    # that crypto/rand produced (recovered from the path)
+    real = {}
+    for r, d in zip(raw, datas):
+        pth = unhex(r)
+        if len(pth) >= 14 and pth[:1] == b"0" and pth[13:14] == b"/":
+            try:
+                cb = base64.urlsafe_b64decode(pth[1:13])
+            except Exception:
+                continue
+            l = "%s encwith %s %s" % (AREA, hx(cb), hx(d))
+            real[l] = r
+            l2.append(l)
+
+    def prop2(l, i, m):
+        bad = prop(l, i, m)
+        if not bad and l in real and m.split(" ")[0] != real[l]:
+            return "the encoder model on the real cache-breaker bytes gives %s, EncodePath produced %s" % (m.split(" ")[0][:80], real[l][:80])
+        return bad
+    ctx.correspond(exe, l2, ["path-dec-of-real-encoding"] * len(datas) + ["path-enc-real-random-padding"] * (len(l2) - len(datas)),
+                   label="amp-path-real-encoding", prop=prop2, key_of=key_of, crosscheck=0)
 
 
 # ------------------------------------------------------------------ cache URL cases
@@ -371,7 +403,7 @@ def key_cache(line, impl, model):
     return "cache-url"
 
 
-LIB_OPS = ("clean", "join", "pesc", "punesc", "h34r", "b32", "utf8", "jhp")
+LIB_OPS = ("clean", "join", "pesc", "punesc", "h34r", "b32", "utf8", "jhp", "resolve")
 
 
 def gen_libmodels(ctx):
@@ -416,12 +448,27 @@ def gen_libmodels(ctx):
     for h in (b"a.b", b"::1", b"a.::1", b"", b"a:b"):
         for p_ in (b"443", b"", b"8080"):
             add("jhp %s %s" % (hx(h), hx(p_)), "lib-joinhostport")
+    # url.ResolveReference as the rendezvous code uses it: every base path over {a . /} up to length 6 (7), the two
+    # references of the client and references with dot segments of their own
+    refs = [b"client", b"amp/client/0AAAAAAAAAAAA/QUJD", b"amp/client/0AAAAAAAAAAAA/", b"x", b".", b"..", b"./x", b"../x", b"a/../b", b"a/./b/", b"/abs/x", b"/", b"x/..", b"x/."]
+    for n in range(0, 8 if thorough else 7):
+        for t in itertools.product(b"a./", repeat=n):
+            base = bytes(t)
+            if base and base[:1] != b"/":
+                continue
+            for ref in (refs if n <= 4 else refs[:2]):
+                add("resolve %s %s" % (hx(base), hx(ref)), "lib-resolve-exhaustive")
+    for base in [b"/a%2Fb/", b"/%2e%2e/x/", b"/a/%2E/", b"/a;b/c", b"/a:b@c/", b"/~a/$&+=/", b"//", b"///", b"/a//", b"//a/b", b"/a/b/c/d/e/f/../../g/"]:
+        for ref in refs:
+            add("resolve %s %s" % (hx(base), hx(ref)), "lib-resolve-named")
     return lines, kinds
 
 
 def prop_lib(line, impl, model):
     if impl.startswith("!panic") or impl == "!died":
         return "implementation panicked/died: " + impl[:200]
+    if impl == "!parse":
+        return None
     return None
 
 
@@ -484,7 +531,9 @@ def rand_broker(rng):
                        ("a" * 20 + ".") * 4 + "example", "localhost"])
     port = rng.choice(["", "", "", ":443", ":80", ":8080"])
     user = rng.choice([""] * 9 + ["u@"])
-    path = rng.choice(["", "/", "/", "/", "/x", "/x/", "/x/y/", "/a.b/c/", "/amp/client/", "/client", "/snowflake-broker.torproject.net/"])
+    path = rng.choice(["", "/", "/", "/", "/x", "/x/", "/x/y/", "/a.b/c/", "/amp/client/", "/client", "/snowflake-broker.torproject.net/",
+                       # dot and empty segments, no trailing slash: what ResolveReference and path.Join do with them
+                       "/x/../y/", "/./x/", "/x//y/", "//", "/x/.", "/x/..", "/a/b/../../c/d", "/..", "/../../x/", "/x/y", "/x/./", "/...//", "/x/.../y/", "/%2e%2e/x/", "/x///"])
     return scheme + "://" + user + host + port + path
 
 
@@ -494,7 +543,8 @@ def rand_front(rng):
 
 def rand_cache_rdv(rng):
     return rng.choice([None, None, "https://cdn.ampproject.org/", "https://cdn.ampproject.org/", "https://cdn.ampproject.org", "https://amp.cache:8443/p/",
-                       "http://amp.cache/p/q", "https://u:p@amp.cache/", "https://cdn.ampproject.org/?q=1", "https://cdn.ampproject.org/#f"])
+                       "http://amp.cache/p/q", "https://u:p@amp.cache/", "https://cdn.ampproject.org/?q=1", "https://cdn.ampproject.org/#f",
+                       "https://amp.cache/p/../q/", "https://amp.cache/p//q", "https://amp.cache/./", "https://amp.cache/p/.", "https://amp.cache/..", "https://amp.cache//"])
 
 
 def rand_status(rng):
@@ -521,16 +571,26 @@ def gen_rdv(ctx):
             for front in ["", "front.example"]:
                 for bodysize in [0, LIMIT - 1, LIMIT, LIMIT + 1, 2 * LIMIT]:
                     for st, loc in ((200, 0), (200, 1), (404, 0)):
-                        amps.append((broker, cache, front, rand_data(rng), st, loc, "g%d.%d" % (rng.choice([0, 1, 700]), rng.randrange(256)), bodysize, "amp-limit-grid"))
+                        amps.append((broker, cache, front, rand_data(rng), st, loc, "g%d.%d" % (rng.choice([0, 1, 700]), rng.randrange(256)), bodysize, "amp-limit-grid", rand_cb(rng)))
                 # a response whose armor alone exceeds / just fits the limit
                 for n in ((60000, 70000, 80000, 150000) if thorough else (70000, 80000)):
-                    amps.append((broker, cache, front, rand_data(rng), 200, 0, "g%d.%d" % (n, rng.randrange(256)), 0, "amp-large-response"))
+                    amps.append((broker, cache, front, rand_data(rng), 200, 0, "g%d.%d" % (n, rng.randrange(256)), 0, "amp-large-response", rand_cb(rng)))
     for _ in range(400 if not thorough else 4000):
         n = rng.choice([0, 1, 5, 50, 300, 2000])
         resp = hx(rand_data(rng, n)) if n <= 300 else "g%d.%d" % (n, rng.randrange(256))
         amps.append((rand_broker(rng), rand_cache_rdv(rng), rand_front(rng), rand_data(rng), rand_status(rng), 1 if rng.random() < 0.1 else 0,
-                     resp, rng.choice([0, 0, 0, 5000, LIMIT, LIMIT + 1]), "amp-random"))
+                     resp, rng.choice([0, 0, 0, 5000, LIMIT, LIMIT + 1]), "amp-random", rand_cb(rng)))
     return https, amps
+
+
+def rand_cb(rng):
+    """the 9 cache-breaker bytes crypto/rand hands to EncodePath in this case"""
+    m = rng.randrange(5)
+    if m == 0:
+        return bytes([rng.choice([0, 0xff, 0xfb, 0x3e])] * 9)
+    if m == 1:
+        return bytes(rng.choice([0xfb, 0xff, 0xef, 0xbe, 0xfa]) for _ in range(9))    # '-' and '_' in the padding
+    return bytes(rng.randrange(256) for _ in range(9))
 
 
 def rdv_fields(impl):
@@ -569,25 +629,33 @@ def prop_rdv(line, impl, model):
             return "no request was made"
         return None if res == "res=err" else "no request but a result"
     method, scheme, urlhost, hosthdr, path, query, body = req
+    enc = b"0" + b64u(unhex(a[17])) + b"/" + b64u(data) if op == "amp" else b""
+    bp = b[5]
+    plain = all(sg not in (b".", b"..") for sg in bp.split(b"/"))       # no dot segments in the broker path
+    if any(sg in (b".", b"..") for sg in path.split(b"/")):
+        return "request path %r still has a dot segment" % path
     if op == "amp" and cache is None and data != b"":
-        bp = b[5]
-        want = (bp[: bp.rfind(b"/") + 1] or b"/") + b"amp/client/0AAAAAAAAAAAA/" + b64u(data)
-        if path != want:
+        want = (bp[: bp.rfind(b"/") + 1] or b"/") + b"amp/client/" + enc
+        if plain and path != want:
             return "AMP rendezvous path is %r, the broker URL's directory + amp/client/<encoded poll> is %r" % (path, want)
+        if not path.endswith(b"/amp/client/" + enc):
+            return "AMP rendezvous path %r does not end in /amp/client/<encoded poll>" % path
     if op == "http":
         if method != b"POST" or body != data:
             return "HTTP rendezvous did not POST the poll as the body"
-        bp = b[5]
         want = (bp[: bp.rfind(b"/") + 1] or b"/") + b"client"
-        if path != want:
+        if plain and path != want:
             return "HTTP rendezvous path is %r, the broker URL's directory + \"client\" is %r" % (path, want)
+        if not path.endswith(b"/client"):
+            return "HTTP rendezvous path %r does not end in /client" % path
     else:
         if method != b"GET" or body is not None:
             return "AMP rendezvous is not a body-less GET"
-        # (an empty poll ends in "/", which path.Join in CacheURL removes by design, see cache_test.go;
-        #  the client never sends an empty poll: left to the model comparison)
-        if not (data == b"" and cache is not None) and not path.endswith(b"amp/client/0AAAAAAAAAAAA/" + b64u(data)):
-            return "AMP rendezvous path does not end in amp/client/0<padding>/<base64url(poll)>"
+        # an empty poll ends in "/", which path.Join in CacheURL removes (by design, see cache_test.go; theorem
+        # C11_amp_cache_empty_poll): exactly that, nothing more, may be missing
+        tail = b"amp/client/" + (enc[:-1] if (data == b"" and cache is not None) else enc)
+        if not path.endswith(tail):
+            return "AMP rendezvous path does not end in amp/client/0<padding>/<base64url(poll)> for the padding crypto/rand produced"
     named = bhost if cache is None else None
     if front != b"":
         if urlhost != front:
@@ -672,10 +740,10 @@ def run_rdv(ctx):
     for t, r, al, pre, oa in zip(amps, pa_amp, alens, pres, oas):
         if r.startswith("!"):
             continue
-        b, c, f, d, st, loc, resp, size, k = t
+        b, c, f, d, st, loc, resp, size, k, cb = t
         bf, cf, ou, sha = r.split(" ")
-        lines.append("%s amp %s %s %s %s %d %d %s %d %s %s %s %s %s %s %s" % (
-            AREA, sx(b), sx(c) if c else "n", sx(f), hx(d), st, loc, resp, size, al, bf, cf, ou, pre, oa, sha))
+        lines.append("%s amp %s %s %s %s %d %d %s %d %s %s %s %s %s %s %s %s" % (
+            AREA, sx(b), sx(c) if c else "n", sx(f), hx(d), st, loc, resp, size, al, bf, cf, ou, pre, oa, sha, hx(cb)))
         kinds.append(k)
     ctx.correspond(exe, lines, kinds, label="client-rendezvous", prop=prop_rdv, key_of=key_rdv, impl_args=DRV_ARGS, crosscheck=12)
 
@@ -704,6 +772,27 @@ def rand_poll(rng):
     return b"1.0\n" + json.dumps({"offer": offer, "nat": nat}).encode()
 
 
+def rand_legacy_poll(rng):
+    """a poll body that starts with '{': the POST endpoint's legacy format, an ordinary (undecodable) poll for the AMP endpoint"""
+    import json
+    return rng.choice([b"{", b"{}", b'{"type":"offer","sdp":"x"}', b"{" + bytes(rng.randrange(256) for _ in range(rng.randrange(0, 30))),
+                       json.dumps({"type": "offer", "sdp": "v=0 " * rng.choice([1, 50, 2000])}).encode(), b'{"offer":"o","nat":"unknown"}', b"{1.0\n{}"])
+
+
+def rand_big_poll(rng):
+    """polls around and beyond the POST body limit of 100000 bytes"""
+    import json
+    n = rng.choice([99990, 100000, 100001, 100002, 100500, 150000])
+    mode = rng.randrange(3)
+    if mode == 0:
+        head = b'1.0\n{"offer":"'
+        tail = b'","nat":"unknown"}'
+        return head + b"o" * (n - len(head) - len(tail)) + tail
+    if mode == 1:
+        return b"{" + b"q" * (n - 1)
+    return bytes((i * 31 + n) & 255 for i in range(n)).lstrip(b"{") or b"x"
+
+
 def gen_broker(ctx):
     rng = ctx.rng
     cases = []
@@ -724,26 +813,49 @@ def gen_broker(ctx):
             path = rng.choice([b"/amp/client", b"/amp/clien/0A/QQ", b"/client", b"", b"/amp/client0/QQ"])
             kind = "broker-twin-wrong-route"
         cases.append((scen, answer, body, path, kind))
+    # polls the equality theorem excludes: legacy-looking ('{'-leading) and beyond the POST limit, through BOTH endpoints
+    for _ in range(60 if ctx.tier == "quick" else 600):
+        scen = rng.choice(["noproxy", "proxy", "proxy"])
+        answer = ('{"type":"answer","sdp":"%d"}' % rng.randrange(10**6)).encode()
+        body = rand_legacy_poll(rng)
+        cases.append((scen, answer, body, b"/amp/client/0" + rand_pad(rng) + b"/" + b64u(body), "broker-twin-legacy-looking"))
+    for _ in range(14 if ctx.tier == "quick" else 80):
+        scen = rng.choice(["noproxy", "proxy"])
+        answer = b'{"type":"answer","sdp":"big"}'
+        body = rand_big_poll(rng)
+        cases.append((scen, answer, body, b"/amp/client/0AAAA/" + b64u(body), "broker-twin-around-limit"))
     return cases
 
 
 def prop_broker(line, impl, model):
+    """broker2: both endpoints for one poll, on the outcome of IPC.ClientOffers observed by a direct call"""
     a = line.split(" ")
     if impl.startswith("!panic") or impl == "!died":
         return "implementation panicked/died: " + impl[:200]
     if impl.startswith("!"):
         return None
-    body, path, pst, pbody, errresp = unhex(a[4]), unhex(a[5]), a[6], a[7], a[8]
+    body, path, ipc, shim, errresp = unhex(a[4]), unhex(a[5]), a[6], a[7], a[8]
+    post, ampr = [t.split("=", 1)[1] for t in impl.split(" ")]
+    ipc_reply = ("200," + ipc.split(",")[1]) if ipc.startswith("ok,") else "500,x"
+    # POST side
+    if len(body) > LIMIT:
+        if post != "400,x":
+            return "POST /client answered %s to a body of %d bytes (limit %d), not 400" % (post[:60], len(body), LIMIT)
+    elif body[:1] != b"{":
+        if post != ipc_reply:
+            return "POST /client answered %s (%d hex chars), IPC.ClientOffers gave %s (%d) for the same poll" % (post[:60] + ".." + post[-12:], len(post), ipc_reply[:60] + ".." + ipc_reply[-12:], len(ipc_reply))
+    # AMP side
     if not path.startswith(b"/amp/client/"):
-        return None if impl.startswith("amp=500") else "a path outside /amp/client/ was served: " + impl[:80]
+        return None if ampr.startswith("500") else "a path outside /amp/client/ was served: " + ampr[:80]
     dec = py_decode_path(path[len(b"/amp/client/"):])
     if dec is None:
-        return None if impl == "amp=" + errresp else "undecodable path not answered with the armored decode-error response: " + impl[:120]
+        return None if ampr == errresp else "undecodable path not answered with the armored decode-error response: " + ampr[:120]
     if dec != body:
         return None
-    want = "amp=200," + pbody if pst == "200" else "amp=500,x"
-    if impl != want:
-        return "AMP endpoint answered %s, the POST endpoint %s %s for the same poll" % (impl[:100], pst, pbody[:100])
+    if ampr != ipc_reply:
+        return "AMP endpoint answered %s, IPC.ClientOffers gave %s for the same poll" % (ampr[:100], ipc_reply[:100])
+    if len(body) <= LIMIT and body[:1] != b"{" and ampr.split(",")[0] == "200" and ampr != post:
+        return "AMP endpoint answered %s, the POST endpoint %s for the same poll" % (ampr[:100], post[:100])
     return None
 
 
@@ -752,12 +864,12 @@ def run_broker(ctx):
     exe = vlib.go_test_build("./broker", name="broker_c11.test")
     os.environ["VERIF_DRIVER"] = "c11"
     ctx.trusted.append("twin broker contexts with scripted proxies in harness/overlay/broker/zz_verif_c11_test.go "
-                       "(AddSnowflake + an answering goroutine) stand for two brokers in the same state")
+                       "(AddSnowflake + an answering goroutine) stand for brokers in the same state (POST endpoint, AMP endpoint, direct IPC call)")
     cases = gen_broker(ctx)
-    q = ["%s brokerpost %s %s %s" % (AREA, s, hx(an), hx(b)) for s, an, b, _, _ in cases] + [AREA + " brokererr"]
+    q = ["%s brokeripc %s %s %s" % (AREA, s, hx(an), hx(b)) for s, an, b, _, _ in cases] + [AREA + " brokererr"]
     rc, ra, err = vlib.run_impl(exe, q, args=DRV_ARGS)
     if rc != 0 or len(ra) != len(q):
-        ctx.not_shown("broker: POST phase failed: " + err[-300:])
+        ctx.not_shown("broker: IPC phase failed: " + err[-300:])
         return
     errresp = ra[-1]
     if not errresp.startswith("200,x"):
@@ -765,8 +877,8 @@ def run_broker(ctx):
         return
     lines, kinds = [], []
     for (s, an, b, path, k), r in zip(cases, ra):
-        st, pb = r.split(" ")
-        lines.append("%s broker %s %s %s %s %s %s %s" % (AREA, s, hx(an), hx(b), hx(path), st, pb, errresp))
+        ipc, shim = r.split(" ")
+        lines.append("%s broker2 %s %s %s %s %s %s %s" % (AREA, s, hx(an), hx(b), hx(path), ipc, shim, errresp))
         kinds.append(k)
     ctx.correspond(exe, lines, kinds, label="broker-amp-vs-post", prop=prop_broker, key_of=lambda *a: "amp-vs-post", impl_args=DRV_ARGS, crosscheck=10)
 
@@ -792,7 +904,7 @@ def replay(ctx, doc):
         op = case.split(" ")[1]
         if op in ("http", "amp"):
             exe, args, pr = vlib.go_test_build("./client/lib", name="client_lib_c11.test"), DRV_ARGS, prop_rdv
-        elif op == "broker":
+        elif op in ("broker", "broker2"):
             exe, args, pr = vlib.go_test_build("./broker", name="broker_c11.test"), DRV_ARGS, prop_broker
         else:
             exe, args = vlib.go_build("./zz_verif/amppath"), ()
